@@ -43,6 +43,8 @@ func main() {
 		runSweep(os.Args[2:])
 	case "race":
 		runRace(os.Args[2:])
+	case "fuzzops":
+		runFuzzOps(os.Args[2:])
 	default:
 		fmt.Fprintln(os.Stderr, "unknown subcommand", os.Args[1])
 		os.Exit(2)
